@@ -1386,6 +1386,8 @@ from mlmverif.selfcheck import B, OK  # noqa: E402
 
 _F = 'utils/iter_utils.py'
 VARIANTS = [
+    OK('async-get-helper-called-through-a-lambda-free-partial', 'utils/iter_utils.py',
+       "    return await loop.run_in_executor(self._thread_pool, _async_get, self)", "    element = await loop.run_in_executor(self._thread_pool, _async_get, self)\n    return element"),
     B('async-get-runs-the-bound-get', 'utils/iter_utils.py',
       "    return await loop.run_in_executor(self._thread_pool, _async_get, self)", "    return await loop.run_in_executor(self._thread_pool, self.get)", 'R-C04-21'),
     B('full-signal-constant-names-the-wrong-asyncio-exception', _F,
